@@ -8,7 +8,7 @@ from ..common import pick, CAP, hx, key_family, rand_key, run_cases, sk, unhx
 
 ID = "C05"
 LEVEL = "exploration"
-TECHNIQUE = "per-step postcondition monitor: table and all estimates of the universe are snapshotted before every single add and re-read after it, on states reached by random histories incl. merges, for all three counter types; log types under whatever draws occur"
+TECHNIQUE = "per-step postcondition monitor: table and all estimates of the universe are snapshotted before every single add and re-read after it, on states reached by random histories incl. merges, for all three counter types; log types under whatever draws occur; thread stress with long kernel calls (several threads each filling their own sketch of one shape, compared with sequentially built twins) and one adding thread against querying threads on one 32-row sketch"
 RULE = ("case = (counter type and configuration, width 1..16, depth 1..6, two sketches, event list of add(key, v) and merges); every add "
         "is one monitored step: key's estimate (linear) or smallest counter (log), every other key's estimate, the table diff and "
         "n_added() are compared before/after; non-trivial = case in which an added key shares a counter with another key of the "
@@ -80,6 +80,10 @@ def gen_case(rng, ctx, kind=None, n_events=None):
 def run_case(case, ctx, mon):
     if case.get("type") == "threads":
         return run_threads(case, ctx, mon)
+    if case.get("type") in ("threads_own", "adder_vs_readers"):
+        from .. import thread_common
+
+        return (thread_common.run_own_sketches if case["type"] == "threads_own" else thread_common.run_adder_vs_readers)(case, mon)
     cfg = case["cfg"]
     kind = cfg["kind"]
     w, d = cfg["width"], cfg["depth"]
@@ -225,6 +229,11 @@ def run_threads(case, ctx, mon):
 
 def gen_cases(ctx):
     rng = ctx.rng("cases")
+    # long kernel calls from several threads: own sketches of one shape, and one adder against readers (vmon/thread_common.py; round 8)
+    for kind in state.CMS_KINDS:
+        for rep in range(1 if ctx.quick else 4):
+            yield {"type": "threads_own", "kind": kind, "threads": 6, "seed": 2000 + rep + 17 * ctx.shard}
+            yield {"type": "adder_vs_readers", "kind": kind, "adds": 20000, "readers": 3, "seed": 3000 + rep + 17 * ctx.shard}
     for kind in state.CMS_KINDS:
         for rep in range(2 if ctx.quick else 6):
             yield {"type": "threads", "kind": kind, "threads": 8, "adds": 300, "seed": int(rng.integers(0, 2**31))}
